@@ -93,8 +93,37 @@ def reference_verbatim(ctx):
         rep.bad("C10.R5", C, ev[0] if ev else fn.name, "the reference strains are not evaluated on element selections of the stored reference coordinates", f"{ci.rel}:{fn.lineno}")
 
 
+def equivariance(ctx, rule="C10.R8"):
+    """K20: what every interpolation kernel returns has the transformation type its role demands - position P, rotation L, both strains I."""
+    from .. import equivar as EQ
+    rep = ctx.rep
+    mod = ctx.repo.module(CR).tree
+    n = 0
+    for cls in [c for c in ast.walk(mod) if isinstance(c, ast.ClassDef)]:
+        for fn in cls.body:
+            if not (isinstance(fn, ast.FunctionDef) and fn.name in ("_eval", "_deval")):
+                continue
+            C = f"{CR}:{cls.name}.{fn.name}"
+            ty = EQ.Typer(fn)
+            for ret in EQ.kernel_returns(fn):
+                for (role, want), e in zip(EQ.EXPECT, ret.value.elts):
+                    t = ty.ev(e)
+                    if t is None or t[1] == "Z":
+                        rep.ok(rule, C, f"{role} `{norm_src(e)}`: transformation type not derivable with the rules of K20 (no verdict)", verdict="unknown", trivial=True)
+                    elif t[1] == want:
+                        n += 1
+                        rep.ok(rule, C, f"{role} `{norm_src(e)}` has type {want} under a superposed rigid motion")
+                    else:
+                        rep.bad(rule, C, ret, f"the {role} `{norm_src(e)}` has transformation type {t[1]} instead of {want}: it {EQ.MEANING.get(t[1], '?')} - "
+                                + ("the strain measure, hence the stored energy and the internal forces, change when rod and loads are rotated together" if want == "I"
+                                   else "the kernel output does not follow a rigid motion of the nodes"), f"{CR}:{ret.lineno}")
+    return n
+
+
 def run(ctx):
     rep = ctx.rep
+    rep.rule("C10.R8", "equivariance typing (K20) of every interpolation kernel: the returned position transforms as a point, the rotation left-covariantly, both strains are invariant under a superposed rigid motion of the nodes", 20)
+    equivariance(ctx)
     rep.rule("C10.R7", "rod routines do not modify in place what the memoised interpolation kernels (_eval / _deval / A_IB) hand out (K18): strains, energy and internal forces stay functions of the state", 10)
     from .. import cachepurity as _cp
     _cp.report(ctx, "C10.R7", ("cardillo/rods/",), floor_note=False)
@@ -297,4 +326,21 @@ MUTANTS += [
     dict(id="c10-r7-seed", canary=True, what="[seeded by sub-agent] E_pot_el divides the strains returned by the memoised _eval in place", file=RB_,
          old="            _, _, B_Gamma_bar, B_Kappa_bar = self._eval(\n                qe, qpi, N=self.N_r[el, i], N_xi=self.N_r_xi[el, i]\n            )\n\n            # axial and shear strains\n            B_Gamma = B_Gamma_bar / Ji\n\n            # torsional and flexural strains\n            B_Kappa = B_Kappa_bar / Ji\n",
          new="            _, _, B_Gamma, B_Kappa = self._eval(\n                qe, qpi, N=self.N_r[el, i], N_xi=self.N_r_xi[el, i]\n            )\n\n            B_Gamma /= Ji\n            B_Kappa /= Ji\n", expect="C10.R7"),
+]
+
+_KAPPA = '            d1, d2, d3 = A_IB.T\n            d1_xi, d2_xi, d3_xi = A_IB_xi.T\n            B_Kappa_bar = np.array(\n                [\n                    0.5 * (d3 @ d2_xi - d2 @ d3_xi),\n                    0.5 * (d1 @ d3_xi - d3 @ d1_xi),\n                    0.5 * (d2 @ d1_xi - d1 @ d2_xi),\n                ]\n            )\n\n            return r_OP, A_IB, B_Gamma_bar, B_Kappa_bar\n'
+_IMP = ('from cardillo.math import (\n    norm,\n    cross3,\n', 'from cardillo.math import (\n    norm,\n    cross3,\n    skew2ax,\n')
+MUTANTS += [
+    dict(id="c10-r8-seed", canary=True, what="[seeded by sub-agent] R12 kernel: curvature 'simplified' to skew2ax(A_IB_xi @ A_IB.T) - the spatial, not the material curvature", file=CR,
+         edits=[(CR,) + _IMP, (CR, _KAPPA, "            B_Kappa_bar = skew2ax(A_IB_xi @ A_IB.T)\n\n            return r_OP, A_IB, B_Gamma_bar, B_Kappa_bar\n")], expect="C10.R8"),
+    dict(id="c10-r8-gamma", what="R12 kernel: shear strain projected with A_IB instead of A_IB.T", file=CR,
+         old="            B_Gamma_bar = A_IB.T @ r_OP_xi\n\n            # torsional and flexural strains\n            d1, d2, d3 = A_IB.T\n            d1_xi, d2_xi, d3_xi = A_IB_xi.T\n            B_Kappa_bar = np.array(\n                [\n                    0.5 * (d3 @ d2_xi - d2 @ d3_xi),\n                    0.5 * (d1 @ d3_xi - d3 @ d1_xi),\n                    0.5 * (d2 @ d1_xi - d1 @ d2_xi),\n                ]\n            )\n\n            return",
+         new="            B_Gamma_bar = A_IB @ r_OP_xi\n\n            # torsional and flexural strains\n            d1, d2, d3 = A_IB.T\n            d1_xi, d2_xi, d3_xi = A_IB_xi.T\n            B_Kappa_bar = np.array(\n                [\n                    0.5 * (d3 @ d2_xi - d2 @ d3_xi),\n                    0.5 * (d1 @ d3_xi - d3 @ d1_xi),\n                    0.5 * (d2 @ d1_xi - d1 @ d2_xi),\n                ]\n            )\n\n            return", expect="C10.R8"),
+    dict(id="c10-r8-se3", what="SE3 kernel: relative transformation composed in the wrong order (H_IK1 @ H_IK0_inv)", file=CR,
+         old="            H_K0K1 = H_IK0_inv @ H_IK1\n\n            # compute relative screw\n            h_K0K1 = Log_SE3(H_K0K1)\n\n            # find element number containing xi",
+         new="            H_K0K1 = H_IK1 @ H_IK0_inv\n\n            # compute relative screw\n            h_K0K1 = Log_SE3(H_K0K1)\n\n            # find element number containing xi", expect="C10.R8"),
+]
+NEUTRAL += [
+    dict(id="c10-n-r8", canary=True, what="R12 kernel: curvature as skew2ax(A_IB.T @ A_IB_xi) (the same material curvature)", file=CR,
+         edits=[(CR,) + _IMP, (CR, _KAPPA, "            B_Kappa_bar = skew2ax(A_IB.T @ A_IB_xi)\n\n            return r_OP, A_IB, B_Gamma_bar, B_Kappa_bar\n")]),
 ]
